@@ -45,7 +45,7 @@ func init() {
 	experiments["Xswap"] = func(p *Prog, r *Report) { swappedArgsRule(p, r, "swap", p.RepoFuncs()) }
 	experiments["Xkeys"] = func(p *Prog, r *Report) {
 		e := &boolEval{key: genericKey}
-		for _, spec := range [][3]string{{pkgCC, "testCaseLibrary", "filterGRPCImplTestCases"}, {pkgRS, "", "checkTLS"}, {pkgRS, "", "timeoutFromContext"}} {
+		for _, spec := range [][3]string{{pkgCC, "testCaseLibrary", "filterGRPCImplTestCases"}, {pkgRS, "", "checkTLS"}, {pkgRS, "", "timeoutFromContext"}, {pkgCC, "", "run"}, {pkgCC, "clientProcessRunner", "consumeOutput"}} {
 			if fn := p.Func(spec[0], spec[1], spec[2]); fn != nil {
 				fmt.Println(spec[2], sortedKeysInt(e.keysSeen(fn)))
 			}
@@ -93,11 +93,12 @@ var anchorCache map[string][]string
 // extraAnchors: files that carry part of a property's mechanism although the
 // property's anchor list does not name them (each confirmed by reading).
 var extraAnchors = map[string][]string{
-	"C19": {"internal/app/referenceserver/impl.go", "internal/app/referenceserver/raw_response.go", "internal/app/grpcserver/impl.go"}, // the over-limit error reaches the client through the handlers and the first-request pre-read
-	"C18": {"internal/app/referenceserver/impl.go"},                                                                                    // grpcStatusTrailers: the Connect error -> gRPC status form
-	"C16": {"internal/tracer/http2.go", "internal/tracer/reader.go"},                                                                   // the HTTP/2 retry collector completes traces towards the Tracer
+	"C19": {"internal/app/referenceserver/impl.go", "internal/app/referenceserver/raw_response.go", "internal/app/grpcserver/impl.go", "internal/compression/*.go"}, // the uncompressed size is what comes out of the decompressors; the over-limit error reaches the client through the handlers and the first-request pre-read
+	"C18": {"internal/app/referenceserver/impl.go"},                                                                                                                 // grpcStatusTrailers: the Connect error -> gRPC status form
+	"C16": {"internal/tracer/http2.go", "internal/tracer/reader.go"},                                                                                                // the HTTP/2 retry collector completes traces towards the Tracer
 	"C02": {"internal/app/referenceclient/wire_details.go"},
-	"C05": {"internal/app/connectconformance/test_trie.go"}, // the run/skip filter (filter.apply) is a trie match                                                                            // wire feedback fails a case whose result matched
+	"C07": {"internal/app/connectconformance/connectconformance.go"}, // run() computes the run mode the permutations are filtered by
+	"C05": {"internal/app/connectconformance/test_trie.go"},          // the run/skip filter (filter.apply) is a trie match                                                                            // wire feedback fails a case whose result matched
 }
 
 func anchorFiles(propID string) []string {
@@ -645,6 +646,7 @@ func anchoredGeneralRules(p *Prog, r *Report, propID string) {
 	resliceAliasRule(p, r, "anchored-reslice", scope)
 	splitRestRule(p, r, "anchored-split", scope)
 	siblingNameWiringRule(p, r, "anchored-name", scope)
+	round6GeneralRules(p, r, scope)
 }
 
 // arityGuardRule: in both reference clients' Invoke, the calls of unary,
@@ -754,6 +756,9 @@ func crossPropertyRules(p *Prog, r *Report, propID string) {
 			extra(p, tmp)
 		}
 		for _, extra := range round5Rules[q] {
+			extra(p, tmp)
+		}
+		for _, extra := range round6Rules[q] {
 			extra(p, tmp)
 		}
 		for _, o := range tmp.Obls {
